@@ -352,9 +352,13 @@ func runC09(c *Ctx, w *World, r *Report) {
 			bad = fmt.Sprintf("expected one masking store at l-1 and one trailing store at l, found %d and %d", nMasked, nTrail)
 		}
 		if maskVal != nil && bad == "" {
-			tab, idx, ok := asElemLoad(maskVal)
-			if !ok || !isGlobal(tab, "bitmap", "RMask") {
-				bad = "mask byte is not taken from bitmap.RMask"
+			ms, ok := fa.MaskOf(maskVal)
+			idx := ssa.Value(nil)
+			if ok && ms.Kind == "high" {
+				idx = fa.AtomValueOfLin(ms.N)
+			}
+			if idx == nil {
+				bad = "mask byte does not clear the low (-toBit) mod 8 bits (bitmap.RMask[(8-toBit)&7] or 0xff<<((8-toBit)&7))"
 			} else {
 				x, j, ok := asLowMask(idx)
 				d := fa.Lin(x).Add(fa.Lin(to))
